@@ -33,14 +33,14 @@ func init() {
 	components["wsdecode"] = &component{gen: wsdecodeGen, enum: wsdecodeEnum, run: wsdecodeRun}
 }
 
-func hexs(b []byte) string {
+func wsdHex(b []byte) string {
 	if len(b) == 0 {
 		return "-"
 	}
 	return hex.EncodeToString(b)
 }
 
-func unhex(s string) []byte {
+func wsdUnhex(s string) []byte {
 	if s == "-" {
 		return nil
 	}
@@ -53,7 +53,7 @@ func unhex(s string) []byte {
 
 // ---- an independent frame writer for the generator (not the library's encoder) -------------------
 
-type genFrame struct {
+type wsdGenFrame struct {
 	b0      byte // fin/rsv/opcode
 	masked  bool
 	mask    [4]byte
@@ -62,7 +62,7 @@ type genFrame struct {
 	body    int    // payload bytes actually present (< declLen for truncated frames)
 }
 
-func (g genFrame) bytes(r *rng) []byte {
+func (g wsdGenFrame) bytes(r *rng) []byte {
 	var out []byte
 	out = append(out, g.b0)
 	b1 := byte(0)
@@ -87,8 +87,8 @@ func (g genFrame) bytes(r *rng) []byte {
 }
 
 // wsdecodeValidFrame draws a frame whose declared length is in one of the property's length classes.
-func wsdecodeFrame(r *rng, max int) genFrame {
-	g := genFrame{b0: byte(r.next())}
+func wsdecodeFrame(r *rng, max int) wsdGenFrame {
+	g := wsdGenFrame{b0: byte(r.next())}
 	if r.intn(3) == 0 { // canonical header bytes more often than not
 		g.b0 = byte(0x80 | r.pick(0, 1, 2, 8, 9, 10))
 	}
@@ -201,7 +201,7 @@ func wsdecodeGen(r *rng, maxops int, w *bufio.Writer) {
 			}
 			masked := r.intn(2)
 			fmt.Fprintf(w, "! encfeed %d %d %d %d %d %d %s %s\n", r.intn(2), r.intn(2), r.intn(2), r.intn(2), r.intn(16), masked,
-				hexs(r.bytes(4*masked)), hexs(r.bytes(n)))
+				wsdHex(r.bytes(4*masked)), wsdHex(r.bytes(n)))
 			wsdecodeDrain(r, w)
 		default:
 			g := wsdecodeFrame(r, max)
@@ -228,7 +228,7 @@ func wsdecodeEmit(r *rng, w *bufio.Writer, data []byte, feedOp int) {
 		if feedOp == 1 || (feedOp == 2 && r.intn(2) == 0) {
 			op = "read"
 		}
-		fmt.Fprintf(w, "! %s %s\n", op, hexs(seg))
+		fmt.Fprintf(w, "! %s %s\n", op, wsdHex(seg))
 		if r.intn(5) != 0 {
 			wsdecodeDrain(r, w)
 		}
@@ -275,11 +275,11 @@ func wsdecodeEnum(args []string, w *bufio.Writer) {
 			if (k+i)%3 == 0 {
 				op = "read"
 			}
-			fmt.Fprintf(w, "! %s %s\n! decode\n! decode\n! decode\n! decode\n", op, hexs(s))
+			fmt.Fprintf(w, "! %s %s\n! decode\n! decode\n! decode\n! decode\n", op, wsdHex(s))
 		}
 	}
 	for _, hs := range strs {
-		b := unhex(hs)
+		b := wsdUnhex(hs)
 		n := len(b)
 		if n <= limit {
 			for m := 0; m < 1<<(n-1); m++ { // every composition
@@ -308,9 +308,9 @@ func wsdecodeEnum(args []string, w *bufio.Writer) {
 
 // ---- run ---------------------------------------------------------------------------------------
 
-type backlogReader struct{ b []byte }
+type wsdBacklogReader struct{ b []byte }
 
-func (t *backlogReader) Read(p []byte) (int, error) {
+func (t *wsdBacklogReader) Read(p []byte) (int, error) {
 	n := copy(p, t.b)
 	t.b = t.b[n:]
 	return n, nil
@@ -320,7 +320,7 @@ func wsdecodeRun(script []string, w *bufio.Writer) {
 	var (
 		src, dst *sonic.ByteBuffer
 		codec    *websocket.FrameCodec
-		tr       = &backlogReader{}
+		tr       = &wsdBacklogReader{}
 	)
 	buf := func() string {
 		return fmt.Sprintf("buf %d %d %d %d", src.SaveLen(), src.ReadLen(), src.WriteLen(), src.Reserved())
@@ -337,13 +337,13 @@ func wsdecodeRun(script []string, w *bufio.Writer) {
 					src.Reserve(n)
 				}
 				codec = websocket.NewFrameCodec(src, dst, atoi(f[1]))
-				tr = &backlogReader{}
+				tr = &wsdBacklogReader{}
 				out = "ok"
 			case "feed":
-				src.Write(unhex(f[1]))
+				src.Write(wsdUnhex(f[1]))
 				out = "ok"
 			case "read":
-				tr.b = append(tr.b, unhex(f[1])...)
+				tr.b = append(tr.b, wsdUnhex(f[1])...)
 				n, err := src.ReadFrom(tr)
 				if err != nil {
 					panic("transport error")
@@ -353,7 +353,7 @@ func wsdecodeRun(script []string, w *bufio.Writer) {
 				fr, err := codec.Decode(src)
 				switch {
 				case err == nil:
-					out = "frame " + showFrame(fr)
+					out = "frame " + wsdShowFrame(fr)
 				case errors.Is(err, sonicerrors.ErrNeedMore):
 					out = "needmore"
 				case errors.Is(err, websocket.ErrPayloadOverMaxSize):
@@ -382,9 +382,9 @@ func wsdecodeRun(script []string, w *bufio.Writer) {
 				if f[6] == "1" {
 					fr.SetIsMasked()
 				}
-				fr.SetPayload(unhex(f[8]))
+				fr.SetPayload(wsdUnhex(f[8]))
 				if f[6] == "1" {
-					copy(fr.Mask(), unhex(f[7]))
+					copy(fr.Mask(), wsdUnhex(f[7]))
 				}
 				if err := codec.Encode(fr, dst); err != nil {
 					panic("encode error")
@@ -395,7 +395,7 @@ func wsdecodeRun(script []string, w *bufio.Writer) {
 					panic("encoder left bytes behind")
 				}
 				src.Write(wire)
-				out = "wire " + hexs(wire)
+				out = "wire " + wsdHex(wire)
 			default:
 				panic("bad op " + f[0])
 			}
@@ -410,7 +410,7 @@ func wsdecodeRun(script []string, w *bufio.Writer) {
 }
 
 // showFrame: fin rsv1 rsv2 rsv3 opcode masked mask len payload
-func showFrame(f websocket.Frame) string {
+func wsdShowFrame(f websocket.Frame) string {
 	b2i := func(b bool) int {
 		if b {
 			return 1
@@ -418,5 +418,5 @@ func showFrame(f websocket.Frame) string {
 		return 0
 	}
 	return fmt.Sprintf("%d %d %d %d %d %d %s %d %s", b2i(f.IsFIN()), b2i(f.IsRSV1()), b2i(f.IsRSV2()), b2i(f.IsRSV3()),
-		int(f.Opcode()), b2i(f.IsMasked()), hexs(f.Mask()), len(f), hexs(f.Payload()))
+		int(f.Opcode()), b2i(f.IsMasked()), wsdHex(f.Mask()), len(f), wsdHex(f.Payload()))
 }
